@@ -185,6 +185,8 @@ class Builder:
             kw = params.get('kw', [])
             assert nargs + len(kw) == len(c)
             return self.U.P(un.probe, *c[:nargs], **dict(zip(kw, c[nargs:])))
+        if kind == 'cls':  # a class OBJECT as an opaque leaf
+            return class_leaf(params['c'], self.U)
         if kind == 'listsub':
             return un.ListSub(c)
         if kind == 'tuplesub':
@@ -274,10 +276,18 @@ def core_trees(max_nodes, **kw):
 # cell stratum: every kind x kind nesting over the full alphabet
 
 # (kind, params, arity) canonical forms.  arity None = flexible (use 3 as parent, 2 as child)
-FIXED_ARITY = {'nts': 2, 'ss2': 2, 'ss4': 4, 'ss9': 9, 'dc': 2, 'dc2': 2, 'none': 0}
+FIXED_ARITY = {'nts': 2, 'ss2': 2, 'ss4': 4, 'ss9': 9, 'dc': 2, 'dc2': 2, 'none': 0, 'cls': 0}
 SEQ_KINDS = ['tuple', 'list', 'nt', 'nts', 'ss2', 'ss4', 'ss9', 'cg', 'cn', 'cs', 'dc', 'dc2', 'partial']
 DICT_KINDS = ['dict', 'odict', 'ddict']
-LEAFLIKE_KINDS = ['listsub', 'tuplesub', 'dictsub', 'odictsub', 'ddictsub', 'dequesub']
+LEAFLIKE_KINDS = ['listsub', 'tuplesub', 'dictsub', 'odictsub', 'ddictsub', 'dequesub', 'cls']
+CLASS_LEAVES = ['nt', 'ss', 'tuple', 'dict', 'cg', 'dc', 'nonetype']
+
+
+def class_leaf(name, U):
+    """Class objects used as leaves: their exact type is `type`, which is never registered."""
+    return {'nt': un.NT2, 'ss': un.SS2, 'tuple': tuple, 'dict': dict, 'cg': un.CG, 'dc': un.DC,
+            'nonetype': type(None)}[name]
+
 ALL_NODE_KINDS = [*SEQ_KINDS, *DICT_KINDS, 'deque', 'cd', 'none']
 
 
@@ -324,6 +334,8 @@ def variants(kind, arity, full=True):  # noqa: C901
             return [{'maxlen': 'len+1'}]
         return [{'maxlen': None}, {'maxlen': 'len'}, {'maxlen': 'len+1'},
                 {'maxlen': 'len', 'hist': 'rotate'}, {'maxlen': 'len+1', 'hist': 'rotate'}]
+    if kind == 'cls':
+        return [{'c': c} for c in (CLASS_LEAVES if full else CLASS_LEAVES[:1])]
     if kind == 'cn':
         return [{'meta': 'm'}, {'meta': 'other'}] if full else [{'meta': 'm'}]
     if kind == 'partial':
